@@ -5,6 +5,7 @@ package main
 import (
 	"fmt"
 	"os"
+	"strings"
 	"time"
 
 	"github.com/pentops/j5/internal/j5client"
@@ -25,9 +26,17 @@ func probeMain(args []string) {
 		}
 	}
 	for i, fn := range args[1:] {
+		if _, f, ok := strings.Cut(fn, "="); ok {
+			fn = f
+		}
 		b, err := os.ReadFile(fn)
 		if err != nil {
 			panic(err)
+		}
+		if other, _, ok := strings.Cut(args[1+i], "="); ok {
+			// <pkg>=<file>: a source file of another local package
+			files[fmt.Sprintf("%s/f%d.j5s", strings.ReplaceAll(other, ".", "/"), i)] = b
+			continue
 		}
 		files[fmt.Sprintf("%s/f%d.j5s", dir, i)] = b
 	}
